@@ -14,6 +14,7 @@ import GoNfsd.Lemmas.InoOps
 import GoNfsd.Lemmas.FileDataBridge
 import GoNfsd.Lemmas.Files
 import GoNfsd.Lemmas.FilesBridge
+import GoNfsd.Lemmas.AllocTxn
 
 namespace GoNfsd.Props.C12
 open GoNfsd.Model.Fs GoNfsd.Gen.Consts
@@ -286,5 +287,22 @@ theorem the_inode_written_back_is_the_locked_one :
     ∀ f ∈ GoNfsd.Gen.Skeleton.slotUses, GoNfsd.Model.Skeleton.slotCheck f = true := by decide
 
 example : GoNfsd.Model.Skeleton.slotCheck ("LockInode", [(0, "LookupSlot"), (0, "Acquire")]) = false := by decide
+
+/-! ### when a freed block becomes available (allocation discipline, model M8b) -/
+
+/-- A BLOCK A TRANSACTION FREES IS UNAVAILABLE UNTIL THAT TRANSACTION HAS COMMITTED: in every state reachable by any
+    interleaving of allocations, frees, commits and aborts of concurrently open transactions, a number in the free list of an
+    open transaction is still held in use by the in-memory allocator, and no other open transaction has it in a list.  So
+    nobody is handed the block while its zero image (`FreeBlock` zeroes it in the freeing transaction's own buffers) and its
+    free bit are not yet in the journal — the new owner of a block always reads zeros (`fresh_blocks_hold_zero_bytes`).  Tied
+    to the code by the `atxn` correspondence, which observes allocator and bitmap also BETWEEN `PreCommit` and the
+    journal's commit.  (Seeded change C12q releases the freed numbers at the end of `PreCommit`.) -/
+theorem a_freed_block_is_unavailable_until_its_commit (disk : Nat → Bool) (ops : List GoNfsd.Model.AllocTxn.AOp)
+    (ha : GoNfsd.Model.AllocTxn.AllowedAll (GoNfsd.Model.AllocTxn.fresh disk) ops) (t n : Nat)
+    (hn : n ∈ ((GoNfsd.Model.AllocTxn.run (GoNfsd.Model.AllocTxn.fresh disk) ops).tx t).2) :
+    (GoNfsd.Model.AllocTxn.run (GoNfsd.Model.AllocTxn.fresh disk) ops).mem n = true ∧
+    ∀ u, u ≠ t → n ∉ ((GoNfsd.Model.AllocTxn.run (GoNfsd.Model.AllocTxn.fresh disk) ops).tx u).1 ∧
+                 n ∉ ((GoNfsd.Model.AllocTxn.run (GoNfsd.Model.AllocTxn.fresh disk) ops).tx u).2 :=
+  (GoNfsd.Model.AllocTxn.run_inv _ ops (GoNfsd.Model.AllocTxn.fresh_inv disk) ha).free_owned t n hn
 
 end GoNfsd.Props.C12
